@@ -21,7 +21,7 @@ import time
 from harness import common, pool
 
 PID = "C15"
-TRANSLATORS = ["T-invfilters"]
+TRANSLATORS = ["T-invfilters", "T-storedigest", "T-stateid"]
 
 # Genuine defects of halmos found by this check on the unchanged tree (see the final report).
 KNOWN = common.known_for("C15")  # entries live in /verif/known_findings.json
@@ -301,15 +301,118 @@ def l3_task(case):
     return out
 
 
-def encode_trace(trace, depth):
-    enc = [depth, trace["setup"][0], trace["setup"][1], len(trace["states"])]
+def encode_trace(trace, depth, classes=None):
+    """classes (uid -> state id according to the regenerated snapshot_state, see check_state_ids):
+    when given, the frontier model de-duplicates by the MODEL's state id; otherwise by the
+    recorded real one"""
+    sid = (lambda u, y: classes.get(u, y)) if classes else (lambda u, y: y)
+    enc = [depth, trace["setup"][0], sid(trace["setup"][0], trace["setup"][1]), len(trace["states"])]
     for u, groups in trace["states"].items():
         enc += [int(u), len(groups)]
         for g in groups:
             enc += [len(g["outcomes"])]
             for k, x, y in g["outcomes"]:
-                enc += [k, x, y]
+                enc += [k, x, sid(x, y) if k == 3 else y]
     return enc
+
+
+def state_tokens(trace):
+    """uid -> token of the id the real get_state_id returned (setUp state + every successful end state)"""
+    toks = {trace["setup"][0]: trace["setup"][1]}
+    for groups in trace["states"].values():
+        for g in groups:
+            for k, x, y in g["outcomes"]:
+                if k == 3 and y != -1:
+                    toks[x] = y
+    return toks
+
+
+def describe_difference(ca, cb):
+    from harness import c15_lib as B
+
+    ia, ib = B.spec_identity(ca), B.spec_identity(cb)
+    parts = []
+    for nm, x, y in zip(("balance term", "code", "storage terms"), ia[:3], ib[:3]):
+        if x != y:
+            parts.append(f"{nm} differ")
+    if ia[3] != ib[3]:
+        ta, tb = ca.get("cond_text", {}), cb.get("cond_text", {})
+        only_a = [ta.get(str(i), c) for i, c in enumerate(ca["conds"]) if c in ia[3] - ib[3]]
+        only_b = [tb.get(str(i), c) for i, c in enumerate(cb["conds"]) if c in ib[3] - ia[3]]
+        parts.append(f"constraints on state variables differ: {only_a} vs {only_b}")
+    return "; ".join(parts) or "no difference"
+
+
+def check_state_ids(rep, name, trace, model, rerun):
+    """'States are merged only when they are identical': the ids the real get_state_id gave to the
+    setUp state and to every successful end state, against
+      (spec)  the identity of Spec/StateIdSpec.v rendered in Python on the components read off the Exec,
+      (model) the regenerated snapshot_state / StorageData.digest (extracted, identity hash) on the same components.
+    -> uid -> model state id (or None)"""
+    from harness import c15_lib as B
+
+    comps = {int(u): c for u, c in (trace.get("components") or {}).items()}
+    toks = state_tokens(trace)
+    uids = [u for u in toks if u in comps and "error" not in comps[u]]
+    if len(uids) != len(toks):
+        missing = [u for u in toks if u not in uids]
+        rep.fail("broken-tie", f"L3 case {name}: no state components recorded for states {missing[:5]} ({[comps.get(u) for u in missing[:2]]})", case=rerun)
+        return None
+    rep.coverage["state_ids_compared"] = rep.coverage.get("state_ids_compared", 0) + len(uids)
+    # spec vs implementation: equal id => identical
+    by_tok = {}
+    for u in uids:
+        by_tok.setdefault(toks[u], []).append(u)
+    spec_merged = 0
+    for t, us in by_tok.items():
+        for u in us[1:]:
+            spec_merged += 1
+            if B.spec_identity(comps[u]) != B.spec_identity(comps[us[0]]):
+                diff = describe_difference(comps[us[0]], comps[u])
+                rep.fail("failing-input", f"L3 case {name}: get_state_id gives ONE id to the states {us[0]} and {u}, which are not identical ({diff}); the second one is dropped from the frontier as already visited",
+                         case=dict(rerun, states={str(us[0]): comps[us[0]], str(u): comps[u]}), sig={"defect": "non-identical-states-same-id"})
+                break
+    rep.count("l3_state_ids", "cases with merged end states" if spec_merged else "cases without merged end states")
+    if any(len({B.spec_identity(comps[u])[3] for u in us}) > 1 for us in _by_terms(comps, uids).values()):
+        rep.count("l3_state_ids", "cases with states that differ only in their constraints")
+    if model is None:
+        return None
+    # model vs implementation: the same partition
+    res = model.batch([("c15_state_classes", [len(uids)] + [z for u in uids for z in B.enc_components(comps[u])])])[0]
+    if res is None or len(res) != len(uids):
+        rep.fail("broken-tie", f"L3 case {name}: the state-id model failed on the recorded components", case=rerun)
+        return None
+    classes = dict(zip(uids, res))
+    if any(c < 0 for c in res):
+        rep.fail("broken-tie", f"L3 case {name}: the regenerated snapshot_state raises (path not sliced) on a state for which the real get_state_id returned an id", case=rerun)
+        return None
+    m2t, t2m = {}, {}
+    for u in uids:
+        m2t.setdefault(classes[u], set()).add(toks[u])
+        t2m.setdefault(toks[u], set()).add(classes[u])
+    for t, ms in t2m.items():
+        if len(ms) > 1:
+            us = [u for u in uids if toks[u] == t]
+            a = us[0]
+            b = next(u for u in us if classes[u] != classes[a])
+            rep.fail("broken-tie", f"L3 case {name}: state identity: the real get_state_id gives one id to the states {a} and {b}; the regenerated snapshot_state (collision-free hash) tells them apart ({describe_difference(comps[a], comps[b])})",
+                     case=dict(rerun, states={str(a): comps[a], str(b): comps[b]}))
+            return classes
+    for m, ts in m2t.items():
+        if len(ts) > 1:
+            us = [u for u in uids if classes[u] == m]
+            rep.fail("broken-tie", f"L3 case {name}: state identity: the regenerated snapshot_state gives one id to the states {us}, the real get_state_id gives {len(ts)} different ids", case=dict(rerun, states={str(u): comps[u] for u in us[:3]}))
+            return classes
+    return classes
+
+
+def _by_terms(comps, uids):
+    from harness import c15_lib as B
+
+    out = {}
+    for u in uids:
+        out.setdefault(B.spec_identity(comps[u])[:3], []).append(u)
+    return out
 
 
 def decode_frontier(res, depth):
@@ -402,12 +505,16 @@ def check_l3(rep, case, out, model):
                 else:
                     rep.fail("failing-input", what, case=rerun, sig=sig)
                 break
+    # ---- spec vs implementation, model vs implementation: state identity
+    classes = None
+    if trace and trace.get("setup"):
+        classes = check_state_ids(rep, name, trace, model, rerun)
     # ---- model vs implementation: frontier
     if model is not None and trace and trace.get("setup"):
         if any(y == -1 for gs in trace["states"].values() for g in gs for k, x, y in g["outcomes"] if k == 3):
             rep.fail("broken-tie", f"L3 case {name}: a successful end state of a target transaction never reached the state-id / de-duplication stage of _compute_frontier", case=rerun)
             return
-        res = model.batch([("c15_frontier", encode_trace(trace, d))])[0]
+        res = model.batch([("c15_frontier", encode_trace(trace, d, classes))])[0]
         if res is None:
             rep.fail("broken-tie", f"L3 case {name}: frontier model failed on the recorded trace", case=rerun)
             return
@@ -440,6 +547,8 @@ QUICK_CORPUS = {
     "sender-excluded", "sender-targeted", "sender-target-minus-excluded", "not-sender-targeted2",
     "test-contract-not-targeted", "test-contract-selector-targeted",
     "value-needed", "time-after-other-call", "F9-roll", "setup-merge-time", "F12-probe", "value-balance",
+    "branch-cond-arg-small", "branch-cond-arg-big", "branch-cond-arg-d3", "branch-cond-arg-late-store", "branch-cond-arg-eq",
+    "branch-cond-caller-eq", "branch-cond-caller-ne", "branch-cond-value", "branch-cond-unrelated",
 }
 
 
@@ -457,6 +566,9 @@ def gen_l3_cases(tier, r):
         i += 1
         if B.resolved_nonempty(c):
             cases.append(c)
+    # state identity: stored transaction values with a branch on them (see c15_lib.gen_branch_case)
+    for j in range(3 if tier == "quick" else 60):
+        cases.append(B.gen_branch_case(r, j, max_depth=2 if tier == "quick" else 3))
     return cases
 
 
